@@ -173,44 +173,39 @@ func (i *Injector) injectSelfMonitor(cfg *config.Config) {
 }
 
 func (i *Injector) marshal(cfg *config.Config) ([]byte, error) {
-	bTokens := make([]string, 0)
-	password := make([]string, 0)
-
-	for _, w := range cfg.RemoteWriteConfigs {
-		if w.HTTPClientConfig.BearerToken != "" {
-			bTokens = append(bTokens, string(w.HTTPClientConfig.BearerToken))
-		}
-
-		if w.HTTPClientConfig.BasicAuth != nil && w.HTTPClientConfig.BasicAuth.Password != "" {
-			password = append(password, string(w.HTTPClientConfig.BasicAuth.Password))
-		}
-
-	}
-
-	for _, w := range cfg.RemoteReadConfigs {
-		if w.HTTPClientConfig.BearerToken != "" {
-			bTokens = append(bTokens, string(w.HTTPClientConfig.BearerToken))
-		}
-
-		if w.HTTPClientConfig.BasicAuth != nil && w.HTTPClientConfig.BasicAuth.Password != "" {
-			password = append(password, string(w.HTTPClientConfig.BasicAuth.Password))
-		}
-	}
-
 	gen, err := yaml.Marshal(&cfg)
 	if err != nil {
 		return nil, errors.Wrapf(err, "marshal config failed")
 	}
 
-	data := string(gen)
-	for _, token := range bTokens {
-		data = strings.Replace(data, "bearer_token: <secret>", fmt.Sprintf("bearer_token: %s", token), 1)
+	// every secret is marshalled as "<secret>": the sections kvass does not rewrite
+	// are taken from the original content, so all kinds of secrets survive and stay quoted
+	out, raw := yaml.MapSlice{}, yaml.MapSlice{}
+	if err := yaml.Unmarshal(gen, &out); err != nil {
+		return nil, errors.Wrapf(err, "unmarshal injected config")
 	}
 
-	for _, pd := range password {
-		data = strings.Replace(data, "password: <secret>", fmt.Sprintf("password: %s", pd), 1)
+	if err := yaml.Unmarshal(i.curCfg.RawContent, &raw); err != nil {
+		return nil, errors.Wrapf(err, "unmarshal raw config")
 	}
-	return []byte(data), nil
+
+	for _, r := range raw {
+		if r.Key != "alerting" && r.Key != "remote_write" && r.Key != "remote_read" {
+			continue
+		}
+
+		for k := range out {
+			if out[k].Key == r.Key {
+				out[k].Value = r.Value
+			}
+		}
+	}
+
+	data, err := yaml.Marshal(out)
+	if err != nil {
+		return nil, errors.Wrapf(err, "marshal config failed")
+	}
+	return data, nil
 }
 
 func (i *Injector) inject() (err error) {
